@@ -4,45 +4,21 @@
 ; ---------------------------------------------------------------------------
 (declare-fun eqS (Heap Val Val) Bool)
 ; scalars: same kind and value (floats by Go's ==, so -0 == +0; NaN is outside the domain)
-(assert (forall ((h Heap) (a Val) (b Val)) (! (=> ((_ is WNil) a) (= (eqS h a b) ((_ is WNil) b))) :pattern ((eqS h a b)))))
-(assert (forall ((h Heap) (a Val) (b Val)) (! (=> ((_ is WStr) a) (= (eqS h a b) (and ((_ is WStr) b) (= (wstr a) (wstr b))))) :pattern ((eqS h a b)))))
-(assert (forall ((h Heap) (a Val) (b Val)) (! (=> ((_ is WBool) a) (= (eqS h a b) (and ((_ is WBool) b) (= (wbool a) (wbool b))))) :pattern ((eqS h a b)))))
-(assert (forall ((h Heap) (a Val) (b Val)) (! (=> ((_ is WInt) a) (= (eqS h a b) (and ((_ is WInt) b) (= (wint a) (wint b))))) :pattern ((eqS h a b)))))
-(assert (forall ((h Heap) (a Val) (b Val)) (! (=> ((_ is WFloat) a) (= (eqS h a b) (and ((_ is WFloat) b) (feq (wfloat a) (wfloat b))))) :pattern ((eqS h a b)))))
+(assert (forall ((h Heap) (a Val) (b Val)) (! (=> (gh h) (=> ((_ is WNil) a) (= (eqS h a b) ((_ is WNil) b)))) :pattern ((eqS h a b)))))
+(assert (forall ((h Heap) (a Val) (b Val)) (! (=> (gh h) (=> ((_ is WStr) a) (= (eqS h a b) (and ((_ is WStr) b) (= (wstr a) (wstr b)))))) :pattern ((eqS h a b)))))
+(assert (forall ((h Heap) (a Val) (b Val)) (! (=> (gh h) (=> ((_ is WBool) a) (= (eqS h a b) (and ((_ is WBool) b) (= (wbool a) (wbool b)))))) :pattern ((eqS h a b)))))
+(assert (forall ((h Heap) (a Val) (b Val)) (! (=> (gh h) (=> ((_ is WInt) a) (= (eqS h a b) (and ((_ is WInt) b) (= (wint a) (wint b)))))) :pattern ((eqS h a b)))))
+(assert (forall ((h Heap) (a Val) (b Val)) (! (=> (gh h) (=> ((_ is WFloat) a) (= (eqS h a b) (and ((_ is WFloat) b) (feq (wfloat a) (wfloat b)))))) :pattern ((eqS h a b)))))
 ; lists: same length, equal elements position by position (the other side must be a plain list)
-(assert (forall ((h Heap) (a Val) (b Val)) (! (=> ((_ is VList) a)
-  (= (eqS h a b)
-     (and ((_ is VList) b) (plain (vlref b))
-          (= (select (Llen h) (impl (vlref a))) (select (Llen h) (vlref b)))
-          (forall ((k Int)) (! (=> (and (<= 0 k) (< k (select (Llen h) (impl (vlref a)))))
-                                   (eqS h (select (select (Mem h) (select (Larr h) (impl (vlref a)))) k)
-                                          (select (select (Mem h) (select (Larr h) (vlref b))) k)))
-                               :pattern ((select (select (Mem h) (select (Larr h) (impl (vlref a)))) k)))))))
-  :pattern ((eqS h a b)))))
+(assert (forall ((h Heap) (a Val) (b Val)) (! (=> (gh h) (=> ((_ is VList) a) (= (eqS h a b) (and ((_ is VList) b) (plain (vlref b)) (= (select (Llen h) (impl (vlref a))) (select (Llen h) (vlref b))) (forall ((k Int)) (! (=> (and (<= 0 k) (< k (select (Llen h) (impl (vlref a))))) (eqS h (select (select (Mem h) (select (Larr h) (impl (vlref a)))) k) (select (select (Mem h) (select (Larr h) (vlref b))) k))) :pattern ((select (select (Mem h) (select (Larr h) (impl (vlref a)))) k)))))))) :pattern ((eqS h a b)))))
 ; objects: same key set, equal values per key
-(assert (forall ((h Heap) (a Val) (b Val)) (! (=> ((_ is VObj) a)
-  (= (eqS h a b)
-     (and ((_ is VObj) b) (plain (voref b))
-          (forall ((k Str)) (! (= (select (select (MDom h) (select (Omap h) (impl (voref a)))) k) (select (select (MDom h) (select (Omap h) (voref b))) k))
-                               :pattern ((select (select (MDom h) (select (Omap h) (impl (voref a)))) k)) :pattern ((select (select (MDom h) (select (Omap h) (voref b))) k))))
-          (forall ((k Str)) (! (=> (select (select (MDom h) (select (Omap h) (impl (voref a)))) k)
-                                   (eqS h (select (select (MVal h) (select (Omap h) (impl (voref a)))) k)
-                                          (select (select (MVal h) (select (Omap h) (voref b))) k)))
-                               :pattern ((select (select (MVal h) (select (Omap h) (impl (voref a)))) k)))))))
-  :pattern ((eqS h a b)))))
+(assert (forall ((h Heap) (a Val) (b Val)) (! (=> (gh h) (=> ((_ is VObj) a) (= (eqS h a b) (and ((_ is VObj) b) (plain (voref b)) (forall ((k Str)) (! (= (select (select (MDom h) (select (Omap h) (impl (voref a)))) k) (select (select (MDom h) (select (Omap h) (voref b))) k)) :pattern ((select (select (MDom h) (select (Omap h) (impl (voref a)))) k)) :pattern ((select (select (MDom h) (select (Omap h) (voref b))) k)))) (forall ((k Str)) (! (=> (select (select (MDom h) (select (Omap h) (impl (voref a)))) k) (eqS h (select (select (MVal h) (select (Omap h) (impl (voref a)))) k) (select (select (MVal h) (select (Omap h) (voref b))) k))) :pattern ((select (select (MVal h) (select (Omap h) (impl (voref a)))) k)))))))) :pattern ((eqS h a b)))))
 (declare-fun subsetCard (Heap Int Int) Bool)  ; trigger only (always true)
-(assert (forall ((h Heap) (m1 Int) (m2 Int)) (! (subsetCard h m1 m2) :pattern ((subsetCard h m1 m2)))))
+(assert (forall ((h Heap) (m1 Int) (m2 Int)) (! (=> (gh h) (subsetCard h m1 m2)) :pattern ((subsetCard h m1 m2)))))
 ; trusted finite-set facts about maps (cardinality = size of the key set)
-(assert (forall ((h Heap) (m1 Int) (m2 Int)) (!
-  (=> (and (= (select (MCard h) m1) (select (MCard h) m2))
-           (forall ((k Str)) (! (=> (select (select (MDom h) m1) k) (select (select (MDom h) m2) k)) :pattern ((select (select (MDom h) m1) k)))))
-      (forall ((k Str)) (! (=> (select (select (MDom h) m2) k) (select (select (MDom h) m1) k)) :pattern ((select (select (MDom h) m2) k)))))
-  :pattern ((subsetCard h m1 m2)))))
-(assert (forall ((h Heap) (m1 Int) (m2 Int)) (!
-  (=> (forall ((k Str)) (! (= (select (select (MDom h) m1) k) (select (select (MDom h) m2) k)) :pattern ((select (select (MDom h) m1) k))))
-      (= (select (MCard h) m1) (select (MCard h) m2)))
-  :pattern ((subsetCard h m1 m2)))))
-(assert (forall ((h Heap) (h2 Heap) (a Val) (b Val)) (! (=> (and (eqS h a b) (ext h h2)) (eqS h2 a b)) :pattern ((eqS h a b) (ext h h2)))))
+(assert (forall ((h Heap) (m1 Int) (m2 Int)) (! (=> (gh h) (=> (and (= (select (MCard h) m1) (select (MCard h) m2)) (forall ((k Str)) (! (=> (select (select (MDom h) m1) k) (select (select (MDom h) m2) k)) :pattern ((select (select (MDom h) m1) k))))) (forall ((k Str)) (! (=> (select (select (MDom h) m2) k) (select (select (MDom h) m1) k)) :pattern ((select (select (MDom h) m2) k)))))) :pattern ((subsetCard h m1 m2)))))
+(assert (forall ((h Heap) (m1 Int) (m2 Int)) (! (=> (gh h) (=> (forall ((k Str)) (! (= (select (select (MDom h) m1) k) (select (select (MDom h) m2) k)) :pattern ((select (select (MDom h) m1) k)))) (= (select (MCard h) m1) (select (MCard h) m2)))) :pattern ((subsetCard h m1 m2)))))
+(assert (forall ((h Heap) (h2 Heap) (a Val) (b Val)) (! (=> (and (gh h) (gh h2)) (=> (and (eqS h a b) (ext h h2)) (eqS h2 a b))) :pattern ((eqS h a b) (ext h h2)))))
 
 ; ---------------------------------------------------------------------------
 ; C08: one level of a deep copy.  copy1(mark, src, dst): dst (a Go value returned by copy()) is
@@ -62,19 +38,13 @@
   (ite ((_ is VNil) a) WNil (ite ((_ is VStr) a) (WStr (vstr a)) (ite ((_ is VBool) a) (WBool (vbool a))
   (ite ((_ is VInt) a) (WInt (vint a)) (ite ((_ is VFloat) a) (WFloat (vfloat a)) a))))))
 ; cardinality is the size of the key set (trusted finite-set facts, true of every reachable heap)
-(assert (forall ((h Heap) (m Int)) (! (<= 0 (select (MCard h) m)) :pattern ((select (MCard h) m)))))
-(assert (forall ((h Heap) (m Int) (k Str)) (! (=> (select (select (MDom h) m) k) (<= 1 (select (MCard h) m))) :pattern ((select (select (MDom h) m) k)))))
+(assert (forall ((h Heap) (m Int)) (! (=> (gh h) (<= 0 (select (MCard h) m))) :pattern ((select (MCard h) m)))))
+(assert (forall ((h Heap) (m Int) (k Str)) (! (=> (gh h) (=> (select (select (MDom h) m) k) (<= 1 (select (MCard h) m)))) :pattern ((select (select (MDom h) m) k)))))
 
 ; acyclicity of values (the hypothesis of the properties that quantify over trees): a ghost rank that
 ; strictly decreases from a container to its elements / field values. Used only for termination.
 (declare-fun rank (Heap Val) Int)
-(assert (forall ((h Heap) (v Val)) (! (<= 0 (rank h v)) :pattern ((rank h v)))))
-(assert (forall ((h Heap) (o Int) (k Int)) (!
-  (=> (and (<= 0 k) (< k (select (Llen h) (impl o))))
-      (< (rank h (select (select (Mem h) (select (Larr h) (impl o))) k)) (rank h (VList o))))
-  :pattern ((rank h (VList o)) (select (select (Mem h) (select (Larr h) (impl o))) k)))))
-(assert (forall ((h Heap) (o Int) (k Str)) (!
-  (=> (select (select (MDom h) (select (Omap h) (impl o))) k)
-      (< (rank h (select (select (MVal h) (select (Omap h) (impl o))) k)) (rank h (VObj o))))
-  :pattern ((rank h (VObj o)) (select (select (MVal h) (select (Omap h) (impl o))) k)))))
-(assert (forall ((h Heap) (h2 Heap) (v Val)) (! (=> (ext h h2) (= (rank h v) (rank h2 v))) :pattern ((ext h h2) (rank h2 v)))))
+(assert (forall ((h Heap) (v Val)) (! (=> (gh h) (<= 0 (rank h v))) :pattern ((rank h v)))))
+(assert (forall ((h Heap) (o Int) (k Int)) (! (=> (gh h) (=> (and (<= 0 k) (< k (select (Llen h) (impl o)))) (< (rank h (select (select (Mem h) (select (Larr h) (impl o))) k)) (rank h (VList o))))) :pattern ((rank h (VList o)) (select (select (Mem h) (select (Larr h) (impl o))) k)))))
+(assert (forall ((h Heap) (o Int) (k Str)) (! (=> (gh h) (=> (select (select (MDom h) (select (Omap h) (impl o))) k) (< (rank h (select (select (MVal h) (select (Omap h) (impl o))) k)) (rank h (VObj o))))) :pattern ((rank h (VObj o)) (select (select (MVal h) (select (Omap h) (impl o))) k)))))
+(assert (forall ((h Heap) (h2 Heap) (v Val)) (! (=> (and (gh h) (gh h2)) (=> (ext h h2) (= (rank h v) (rank h2 v)))) :pattern ((ext h h2) (rank h2 v)))))
